@@ -86,6 +86,21 @@ def obligations(tier, seed):
     obs = []
     slack = tier_pick(tier, [1], [0, 1, 2, 3])
     chunks = tier_pick(tier, 4, 4)
+    # room for a further recognition site inside the target: acceptance (the illegal-site screen) must not depend on
+    # where the origin falls either
+    from symx import loader
+
+    st_ = loader.real_stack()
+    for e, role in ([("BsaI", "module")] if tier == "quick" else [("BsaI", "module"), ("BsaI", "vector"), ("BbsI", "module")]):
+        g = Geometry(st_.enzyme(e))
+        F = fixed_letters(generic_class(st_, role, e).structure())
+        n = F + g.L + (g.lo - g.L) + 1
+        step = (n + 7) // 8
+        for lo in range(0, n, step):
+            hi = min(n, lo + step)
+            obs.append(Ob("generic %s over %s n=%d (room for a third site) rho=%d..%d" % (role, e, n, lo, hi - 1), ob_rot,
+                          dict(src="generic", role=role, enzyme=e, n=n, F=F, lo=lo, hi=hi), samples=3, cost=n ** 3 * 2,
+                          group="third-site %s %s" % (role, e)))
     for params, pat, F in class_params(tier, seed):
         label = "%s.%s" % (params["kit"], params["cls"]) if params["src"] == "kit" else \
             "generic %s over %s" % (params["role"], params["enzyme"])
